@@ -4,6 +4,7 @@
 package driver
 
 import (
+	"encoding/json"
 	"fmt"
 	"os"
 	"os/signal"
@@ -38,13 +39,29 @@ func Main(selfPkg string) {
 			fmt.Fprintln(os.Stderr, "unknown property", id)
 			os.Exit(2)
 		}
-		r := core.NewRun(id, tier)
-		r.Level = p.Level
-		for i := 4; i+1 < len(os.Args); i++ {
+		replay := ""
+		for i := 3; i+1 < len(os.Args); i++ {
 			if os.Args[i] == "--replay" {
-				r.Replay = os.Args[i+1]
+				replay = os.Args[i+1]
 			}
 		}
+		if replay != "" {
+			// a replay file records the tier and seed of the run that found the violation: the
+			// case list is a function of the seed only, so re-running with them reproduces it
+			var rec struct {
+				Tier string `json:"tier"`
+				Seed int64  `json:"seed"`
+				Sig  string `json:"sig"`
+			}
+			if b, err := os.ReadFile(replay); err == nil && json.Unmarshal(b, &rec) == nil && rec.Tier != "" {
+				tier = rec.Tier
+				os.Setenv("VERIF_SEED", fmt.Sprint(rec.Seed))
+				fmt.Printf("replaying %s: tier=%s seed=%d signature=%s\n", replay, rec.Tier, rec.Seed, rec.Sig)
+			}
+		}
+		r := core.NewRun(id, tier)
+		r.Level = p.Level
+		r.Replay = replay
 		sig := make(chan os.Signal, 1)
 		signal.Notify(sig, syscall.SIGINT, syscall.SIGTERM)
 		go func() { <-sig; r.Cleanup(); os.Exit(130) }()
